@@ -13,9 +13,9 @@ ASSUMPTIONS = ["reference 1: ln N(x_dims; mu[dims], Sigma[dims,dims]) / ln N(z; 
 
 
 def _pool(tier):
-    base = [(1, 1, 1), (2, 2, 2), (3, 3, 1), (4, 2, 2), (5, 1, 1), (3, 4, 2), (2, 1, 3), (6, 2, 1)]
+    base = [(1, 1, 1), (2, 2, 2), (3, 3, 1), (4, 2, 2), (5, 1, 1), (3, 4, 2), (2, 1, 3), (6, 2, 1), (7, 1, 1)]
     if tier == "thorough":
-        base += [(4, 4, 1), (6, 1, 2), (5, 3, 2), (2, 3, 1), (3, 1, 3), (1, 4, 2), (4, 1, 1), (5, 2, 3)]
+        base += [(4, 4, 1), (6, 1, 2), (5, 3, 2), (2, 3, 1), (3, 1, 3), (1, 4, 2), (4, 1, 1), (5, 2, 3), (7, 2, 1), (8, 1, 2)]
     return base
 
 
@@ -45,7 +45,7 @@ def _run_marg(case):
     if not ok:
         return fails
     snap = {k: np.asarray(getattr(p, k)).copy() for k in ("mu", "Sigma", "Lambda", "nu", "ln_beta")}
-    ok, m = lib(fails, "get_marginal", lambda: p.get_marginal(jnp.array(dims)))
+    ok, m = lib(fails, "get_marginal", lambda: p.get_marginal(libx.IDX(dims)))
     if not ok:
         return fails
     x = np.asarray(case["x"], float)
